@@ -31,9 +31,9 @@ def obligations(tier, seed):
     wrap_q = [dict(CAP=8, SS=10), dict(CAP=8, SS=3)]
     wrap_t = [dict(CAP=16, SS=24), dict(CAP=16, SS=6), dict(CAP=12, SS=1)]
     # PES: 2 packets = 368 bytes, cut positions around every structural boundary
-    cuts_q = [(0, 100), (0, 47), (1, 184), (2, 231), (3, 3), (4, 330)]
+    cuts_q = [(0, 100), (0, 47), (1, 184), (2, 231), (3, 3), (4, 330), (6, 184), (7, 190)]
     split_q = [dict(TS=0, SHAPE=s, CUT=c) for (s, c) in cuts_q]
-    split_t = [dict(TS=0, SHAPE=s, CUT=c) for s in (0, 1, 2, 3, 4) for c in
+    split_t = [dict(TS=0, SHAPE=s, CUT=c) for s in (0, 1, 2, 3, 4, 6, 7) for c in
                (1, 2, 3, 4, 5, 6, 7, 9, 10, 14, 45, 46, 47, 48, 49, 50, 91, 92, 93, 137, 138, 139, 183, 184, 185, 186, 187, 188, 190, 193,
                 229, 230, 231, 232, 233, 234, 276, 277, 300, 322, 323, 366, 367)]
     split_t += [dict(TS=0, SHAPE=0, CUT=c, CUT2=d) for (c, d) in ((1, 2), (3, 190), (47, 48), (100, 200), (183, 185), (184, 230), (46, 232), (230, 367))]
@@ -74,7 +74,7 @@ def obligations(tier, seed):
            encodes=["vbi_dvb_demux_reset"], bounds="none", timeout=120, vin_size=128, **common),
         Ob("split_equiv_pes", defines={"G_SEQ": None}, func="h_split_equiv", unwind=50, unwindset=uw_seq, flags=fs, patch=RF_PATCH,
            desc="real vbi_dvb_demux_feed (PES): stream of two valid 184 byte VBI PES packets (structure SHAPE: new frame / continuation in field 2 / stuffing in the "
-                "middle / illegal line / unknown+private units and duplicate line; both PTS and all unit payloads symbolic) fed whole vs. cut at CUT (and CUT2): identical "
+                "middle / illegal line / unknown+private units and duplicate line / undefined lines (line_offset 0) with the second field in its own packet; both PTS and all unit payloads symbolic) fed whole vs. cut at CUT (and CUT2): identical "
                 "callback sequence (count, lines, PTS, line contents), identical pending frame and frame state, identical resume position; representation invariant after every call",
            encodes=["vbi_dvb_demux_feed", "demux_pes_packet", "wrap_around", "demux_pes_packet_frame", "valid_vbi_pes_packet_header", "decode_timestamp",
                     "extract_data_units", "line_address", "reset_frame"],
@@ -91,7 +91,7 @@ def obligations(tier, seed):
         Ob("cor_equiv", defines={"G_SEQ": None}, func="h_cor_equiv", unwind=50, unwindset=dict(uw_seq, **{"h_cor_equiv.3": 4}), flags=fs, patch=RF_PATCH,
            desc="vbi_dvb_demux_cor (callback NULL) on the same stream returns the frames the callback interface delivers (lines, PTS), consumes the whole stream",
            encodes=["vbi_dvb_demux_cor", "demux_pes_packet", "demux_pes_packet_frame"], assumes=seq_assumes, bounds="2 packets, shapes 0..2",
-           grid=[dict(TS=0, SHAPE=s) for s in (0, 1, 2, 3, 4)], quick_grid=[dict(TS=0, SHAPE=0)], reach=["end"], timeout=600, mem_gb=3, vin_size=400, **common),
+           grid=[dict(TS=0, SHAPE=s) for s in (0, 1, 2, 3, 4, 6, 7)], quick_grid=[dict(TS=0, SHAPE=0), dict(TS=0, SHAPE=6)], reach=["end"], timeout=600, mem_gb=3, vin_size=400, **common),
         Ob("garbage_feed", defines={"G_SEQ": None}, func="h_garbage", unwind=45, unwindset={"memcpy.0": 202, "memmove.0": 50, "memmove.1": 50, "memset.0": 300, "demux_pes_packet.3": 4, "demux_pes_packet.1": 4, "demux_ts_packet.9": 4}, flags=fs, patch=RF_PATCH, solver="cadical",
            desc="LEN1 (+LEN2) fully symbolic bytes fed from reset to the PES resp. TS demultiplexer, callback result symbolic: all safety properties of dvb_demux.c "
                 "(exact-size source buffers, pes_buffer/ts_buffer, pointer arithmetic, overflow, shift), termination inside the unwind bounds, representation invariant "
@@ -125,4 +125,17 @@ def obligations(tier, seed):
                    "(the demux then skips into the next packet and an adversarial payload can imitate a start code: the property's 'at most the first frame' does not hold "
                    "for arbitrary payloads - not claimed); TS recovery (continuity/PID/sync loss) beyond garbage_feed_big",
            grid=[dict(DKIND=k) for k in range(9)], quick_grid=[dict(DKIND=k) for k in (0, 3, 4, 8)], reach=["end"], timeout=600, mem_gb=3, vin_size=400, **common),
+        Ob("recovery_ts_continuity", func="h_recovery", unwind=50, unwindset=dict(uw_seq, **{"demux_ts_packet.0": 6}), flags=fs, patch=SCALE_PATCH,
+           defines={"G_SEQ": None, "TS": 1, "LOGN": 4, "DKIND": 8, "SCALED_PES_BUFFER": 1, "PESCAP_SCALED": 256},
+           grid=[dict(TSJUMP=j) for j in (3, 4, 9, 0, 1, 2)], quick_grid=[dict(TSJUMP=3), dict(TSJUMP=9)],
+           desc="TS stream D A B C (four 188 byte transport packets of the PID, one 184 byte PES packet = one single-line frame each, payloads and PTS symbolic) with the "
+                "continuity counter jumping between D (counter 1) and A (counter TSJUMP on the grid: 3 = one packet lost, 4, 9, 0 = more, 2 = nothing lost, 1 = looks like a "
+                "repetition of D), consecutive afterwards: frame B is the last delivered frame, exactly (line, service, 42 payload bytes, B's PTS), C is pending with its PTS and payload - at most the "
+                "first frame after the discontinuity (A) is lost",
+           encodes=["vbi_dvb_demux_feed", "demux_ts_packet", "demux_pes_packet_frame", "valid_vbi_pes_packet_header", "extract_data_units"],
+           assumes=ts_assumes, bounds="4 TS packets, whole feed; counter after the jump on the grid (2 quick, 6 thorough values of 16)",
+           outside="PES packets spanning several TS packets when the jump occurs; transport_error / scrambling / adaptation-field damage (the packet is dropped BEFORE the "
+                   "counter is updated, so the next intact packet is seen as a discontinuity and dropped too - still 'at most the first frame after the damage' when the "
+                   "flagged packet counts as the damage; not claimed); foreign PIDs in between",
+           reach=["end"], timeout=600, mem_gb=3, vin_size=400, **common),
     ]
